@@ -312,8 +312,9 @@ func (r *isoRun) burst() {
 		}
 	}
 	// every message has been decoded and routed; now the first replication may look at its heads
-	h.WaitFor(2*time.Second, func() bool {
-		return false == (h.CountLocked("direct.recv", r.inst.Bus()) < 0) && len(h.ParkedLocked()) > 0 && h.CountLocked("direct.idle", r.inst.Bus()) > 0
+	h.WaitFor(3*time.Second, func() bool {
+		recv := h.CountLocked("direct.recv", r.inst.Bus())
+		return recv >= recvBefore+len(msgs) && h.CountLocked("direct.idle", r.inst.Bus()) > recv
 	})
 	time.Sleep(5 * time.Millisecond)
 	h.ReleaseAll()
